@@ -37,9 +37,17 @@ func (s *Service) Import(ctx context.Context, newConfig config.Pipeline) error {
 // importPipeline imports a pipeline config, tagging any newly created pipeline
 // with the given provision type.
 func (s *Service) importPipeline(ctx context.Context, newConfig config.Pipeline, provisionedBy pipeline.ProvisionType) error {
+	_, err := s.importPipelineActions(ctx, newConfig, provisionedBy)
+	return err
+}
+
+// importPipelineActions imports the config and returns the actions it
+// executed, so that a caller which wraps the import in a store transaction
+// can undo them (undoImport) if that transaction cannot be committed.
+func (s *Service) importPipelineActions(ctx context.Context, newConfig config.Pipeline, provisionedBy pipeline.ProvisionType) ([]action, error) {
 	oldConfig, err := s.Export(ctx, newConfig.ID)
 	if err != nil && !cerrors.Is(err, pipeline.ErrInstanceNotFound) {
-		return cerrors.Errorf("could not export pipeline with ID %v, this could mean the Conduit state is corrupted: %w", err)
+		return nil, cerrors.Errorf("could not export pipeline with ID %v, this could mean the Conduit state is corrupted: %w", err)
 	}
 
 	builder := s.newActionsBuilder()
@@ -48,21 +56,24 @@ func (s *Service) importPipeline(ctx context.Context, newConfig config.Pipeline,
 
 	failedActionIndex, err := s.executeActions(ctx, actions)
 	if err != nil {
-		rollbackActions := actions[:failedActionIndex+1]
-		s.logger.Debug(ctx).Err(err).Msgf("rolling back %d import actions", len(rollbackActions))
-		reverseActions(rollbackActions) // execute rollback actions in reversed order
-		if ok := s.rollbackActions(ctx, rollbackActions); !ok {
-			s.logger.Warn(ctx).Msg("some actions failed to be rolled back, Conduit state might be corrupted; please report this issue to the Conduit team")
-		}
-		return err
+		s.undoImport(ctx, actions[:failedActionIndex+1])
+		return nil, err
 	}
 
-	return nil
+	return actions, nil
 }
 
-// executeActions executes the actions and returns the number of successfully
-// executed actions and an error if an action failed. If an action fails the
-// function returns immediately without executing any further actions.
+// undoImport rolls the given (executed) import actions back, last one first.
+func (s *Service) undoImport(ctx context.Context, executed []action) {
+	rollbackActions := make([]action, len(executed))
+	copy(rollbackActions, executed)
+	s.logger.Debug(ctx).Msgf("rolling back %d import actions", len(rollbackActions))
+	reverseActions(rollbackActions) // execute rollback actions in reversed order
+	if ok := s.rollbackActions(ctx, rollbackActions); !ok {
+		s.logger.Warn(ctx).Msg("some actions failed to be rolled back, Conduit state might be corrupted; please report this issue to the Conduit team")
+	}
+}
+
 func (s *Service) executeActions(ctx context.Context, actions []action) (int, error) {
 	for i, a := range actions {
 		s.logger.Debug(ctx).Str("action", a.String()).Msg("executing action")
